@@ -14,9 +14,10 @@ from vlib.oracles import iso
 
 STRATEGIES = ["all", "comp", "bt"]
 
-# Recorded finding C04-h2-reductive-amination-backward: the full-ITS template of this one corpus reaction applied
-# backwards has 144 matches that each go through the explicit-hydrogen re-matching without result (about three
-# minutes per application).  Checks exclude that (template, kind, direction) by construction and count it.
+# Cost exclusion (one input): the full-ITS template of the reductive amination with H2 applied backwards has 144
+# matches (molecular hydrogen in the rule disables the symmetry pruning) that each re-match 144 ways: 20 736
+# equivalent outputs, about two minutes per application.  Checks skip that (template, kind, direction) and count it
+# in their class histogram; the centre template of the same reaction stays in every search.
 SLOW_KNOWN_TEMPLATES = {"6be7b01b70fcf765"}
 
 
